@@ -52,7 +52,7 @@ CHECKS['C09'] = {
     'technique': TECH,
 }
 CHECKS['C10'] = {
-    'text': 'Verus proves on the real text of BobState::{new,run,into_outcome}, run_alice and handle_connection, for every frame sequence and every local failure: no panic (every unwrap reached only with Some), a declined request returns Err(Abort) without any store call and with state unchanged, Sync-before-Init / double Init / Abort / early close are errors, Ok only after Init followed by Syncs, and the outcome can always be reported.',
+    'text': 'Verus proves on the real text of BobState::{new,run,into_outcome}, run_alice and handle_connection, for every frame sequence and every local failure: no panic (every unwrap reached only with Some), a declined request returns Err(Abort) without any store call and with state unchanged, Sync-before-Init / double Init / Abort / early close are errors, Ok only after Init followed by Syncs, and the outcome can always be reported. A bounded stand-in (c10_session, labelled bounded, not counted) additionally runs the real BobState::run and run_alice over in-memory streams against a real store actor for every frame sequence of up to 3 frames (incl. undecodable and truncated frames), every accept-callback answer and replica state.',
     'design_ref': 'DESIGN.md section 5, C10',
     'note': 'Trusted: stream and store-handle shells returning arbitrary values. Liveness, actor shutdown and counter mirroring are not covered.',
     'technique': TECH,
@@ -64,7 +64,7 @@ CHECKS['C15'] = {
     'technique': TECH,
 }
 CHECKS['C03'] = {
-    'text': 'Verus proves on the real text: validate_entry returns Ok iff the namespace matches, the entry is Local or both signatures verify over the canonical bytes of this very entry (Entry::encode proved to write id, len, hash, timestamp), and the timestamp is at most now + ten minutes (constant tied to the real const by Kani); insert_remote_entry returns Ok only for well-formed-empty valid entries and changes nothing otherwise; the validate closure of sync_process_message (lambda-lifted mechanically) accepts exactly the same predicate, so both ingress paths agree.',
+    'text': 'Verus proves on the real text: validate_entry returns Ok iff the namespace matches, the entry is Local or both signatures verify over the canonical bytes of this very entry (Entry::encode proved to write id, len, hash, timestamp), and the timestamp is at most now + ten minutes (constant tied to the real const by Kani); insert_remote_entry returns Ok only for well-formed-empty valid entries and changes nothing otherwise; the validate closure of sync_process_message (lambda-lifted mechanically) accepts exactly the same predicate, so both ingress paths agree. The gate inside process_message itself (validate before store, continue after a rejected entry) is outside both verifiers and is exercised by the bounded stand-in c03_recon (labelled bounded, not counted).',
     'design_ref': 'DESIGN.md section 5, C03',
     'note': 'Trusted: ed25519 as an uninterpreted predicate, clock bound, the gate inside process_message (A-recon-gate).',
     'technique': TECH,
